@@ -2,9 +2,11 @@
 //! generated cases and writes one protocol line per case for the Lean driver.
 mod c02;
 mod c03;
+mod c04;
 mod c05;
 mod c08;
 mod c17;
+mod c18;
 mod c19;
 mod c20;
 mod engine;
@@ -44,6 +46,7 @@ fn main() {
         "C01" => engine::gen_c01(seed, thorough),
         "C02" => c02::gen(seed, thorough),
         "C03" => c03::gen(seed, thorough),
+        "C04" => c04::gen(seed, thorough),
         "C05" => c05::gen_c05(seed, thorough),
         "VOC0" => voc::gen_raw(seed, thorough, false),
         "VOC1" => voc::gen_raw(seed, thorough, true),
@@ -59,6 +62,7 @@ fn main() {
         "C15" => engine::gen_c15(seed, thorough),
         "C16" => engine::gen_c16(seed, thorough),
         "C17" => c17::gen(seed, thorough),
+        "C18" => c18::gen(seed, thorough),
         "C19" => c19::gen_c19(seed, thorough),
         "C20" => c20::gen(seed, thorough),
         _ => {
